@@ -43,6 +43,21 @@ Theorem C10_bundle_sound : forall link_keys keys code k,
 Proof. exact bundle_sound. Qed.
 Print Assumptions C10_bundle_sound.
 
+(* the state machine as wired by create_state_machine (filters built against EVERY documented response key, matcher over the
+   outgoing links in order): a response reaches only a bundle of a key that carries links and that it matches *)
+Theorem C10_machine_bundle_sound : forall op code k,
+  wf_keys (documented_keys op) = true -> machine_bundle op code = Some k ->
+  In k (outgoing_keys op) /\ spec_matches k (documented_keys op) code = true.
+Proof. exact machine_bundle_sound. Qed.
+Print Assumptions C10_machine_bundle_sound.
+
+(* default = no other DOCUMENTED code, whether or not that code has links of its own *)
+Theorem C10_documented_key_blocks_default : forall op code k n,
+  wf_keys (documented_keys op) = true -> In (k, n) op -> str_eqb k s_default = false -> key_matches k code = true ->
+  machine_bundle op code <> Some s_default.
+Proof. exact documented_blocks_default. Qed.
+Print Assumptions C10_documented_key_blocks_default.
+
 (* every expression of the grammar whose names have no . $ # { } and whose pointer / regex has no }
    is read back by lexer + parser as itself, and evaluates to its denotation (pointers per RFC 6901) *)
 Theorem C10_parse_print_partial : forall rx_ok e,
